@@ -150,12 +150,11 @@ static std::string show(const std::vector<std::pair<std::string, votca::tools::R
 }
 
 static void fuzz_index(const uint8_t *data, size_t size, const std::string &txt) {
-  {  // bead / bin indices of more than 9 digits are outside the domain (RangeParser multiplies begin*stride in Index
-     // arithmetic: "1:1444441:1444444444444444" is a signed overflow at rangeparser.cc:94, noted for C18)
+  {  // numbers beyond the range of Index (more than 18 digits) are outside the domain
     int run = 0;
     for (char ch : txt) {
       run = (ch >= '0' && ch <= '9') ? run + 1 : 0;
-      if (run > 9) return;
+      if (run > 18) return;
     }
   }
   put(txt);
